@@ -1,5 +1,10 @@
 """C20 — communication state decoded bit-exactly, classified SOTDMA / ITDMA."""
-from .. import impl
+from .. import common, gen, impl
+
+# message classes that carry a radio status: (class, width of the radio field)
+RADIO_CLASSES = [('MessageType1', 19), ('MessageType2', 19), ('MessageType3', 19), ('MessageType4', 19),
+                 ('MessageType11', 19), ('MessageType9', 20), ('MessageType18', 20),
+                 ('MessageType26AddressedStructured', 20), ('MessageType26BroadcastUnstructured', 20)]
 
 
 def bits_of(r, lo, w):
@@ -114,9 +119,39 @@ class Prop:
         for (t, r), o in zip(meta, outs):
             self.check_one(ctx, 'commstate', (t, r), o)
         ctx.dist['exhaustive_sotdma_itdma'] = 1
+        # end to end: full-length payloads of every radio-carrying type; the radio status is the last 19/20
+        # bits of the payload (read here from the bits, not through pyais), the report comes from the decoded
+        # message's own is_sotdma / is_itdma / get_communication_state
+        lines, meta = [], []
+        radios = [0, 1, (1 << 19) - 1, 1 << 19, (1 << 19) + 1, (1 << 20) - 1, 0x7ffff, 0x80000, 0x55555, 0xaaaaa]
+        for cname, w in RADIO_CLASSES:
+            t = gen.TYPE_OF[cname][0]
+            for k in range(60 if ctx.tier == 'quick' else 3000):
+                r = (radios[k] if k < len(radios) else rng.randrange(1 << 20)) % (1 << w)
+                bits = gen.payload_bits(rng, cname)
+                bits = bits[:len(bits) - w] + gen.bits_of_int(r, w)
+                lines.append('commstate_bits %s' % bits)
+                meta.append((t, r, bits))
+        outs = common.pmap(impl.step, lines)
+        ctx.evaluations += len(lines)
+        ctx.corr_commands['commstate_bits(oracle only)'] = len(lines)
+        for (t, r, bits), o in zip(meta, outs):
+            so, raw, d = spec_commstate(t, r)
+            if not utc_valid(raw) and so:
+                continue
+            exp = '%s %s %d %s' % (str(so).lower(), str(not so).lower(), raw, impl.show_cs(d))
+            if o != exp:
+                ctx.fail('state reported by a decoded message differs from the ITU reading of its radio bits',
+                         {'cmd': 'commstate_bits', 'type': t, 'radio': r, 'bits': bits}, exp, o,
+                         {'cmd': 'commstate_bits', 'type': t})
 
     def replay(self, ctx, payload):
         inp = payload['failure']['input']
+        if inp['cmd'] == 'commstate_bits':
+            t, r = inp['type'], inp['radio']
+            so, raw, d = spec_commstate(t, r)
+            exp = '%s %s %d %s' % (str(so).lower(), str(not so).lower(), raw, impl.show_cs(d))
+            return impl.step('commstate_bits %s' % inp['bits']) == exp
         if inp['cmd'] in ('sotdma', 'itdma'):
             self.check_one(ctx, inp['cmd'], (inp['radio'],), impl.step('%s %d' % (inp['cmd'], inp['radio'])))
         else:
